@@ -205,8 +205,13 @@ fn derivative_case(rng: &mut crate::rng::Rng, st: &mut Stats) {
         OpSpec::un(intern("exp"), 8),
     ];
     install(&table);
-    let many = rng.chance(1, 8);
+    // these are expensive (conversion and differentiation of a 140-level nest): a bounded number per worker
+    thread_local! {
+        static MANY_DONE: std::cell::Cell<u32> = const { std::cell::Cell::new(0) };
+    }
+    let many = rng.chance(1, 8) && MANY_DONE.with(|c| c.get()) < 30;
     let (text, vars, wrt, order, shape) = if many {
+        MANY_DONE.with(|c| c.set(c.get() + 1));
         // a derivative with far fewer nodes than variables, among them variables of high index:
         // the sum of 65..140 variables plus a product of three of them
         let m = rng.range(65, 140);
